@@ -26,6 +26,7 @@ class Harness:
     """
     def __init__(self, top, ports, **objs):
         self.top = top
+        self.env = set(getattr(ports, "env", ()))
         self.ports = list(ports)
         self.mems = objs.pop("mems", [])     # [(MemoryData, hint)]
         self.__dict__.update(objs)
@@ -33,14 +34,34 @@ class Harness:
 
     def translate(self):
         if self.ts is None:
-            self.ts = TS(self.top, self.ports)
+            self.ts = TS(self.top, self.ports, env=self.env)
             self.ts.bind_memories(self.mems)
         return self.ts
 
 
-def flat_ports(*objs):
-    """All signals of the given interface objects / components (``signature.flatten``)."""
-    out = []
+class Ports(list):
+    """List of port signals; ``env`` = ids of the signals the environment (testbench) drives."""
+    def __init__(self, it=()):
+        super().__init__(it)
+        self.env = set()
+
+    def __add__(self, other):
+        r = Ports(list(self) + list(other))
+        r.env = set(self.env) | set(getattr(other, "env", ()))
+        return r
+
+
+def flat_ports(*objs, env="in"):
+    """All signals of the given interface objects / components (``signature.flatten``).
+
+    env="in": the environment drives the members whose flow is In relative to the object's own
+    signature (a component's inputs; the response side of a plain initiator-oriented interface
+    handed to a decoder).  env="out": the environment drives the Out members (plain interfaces on
+    which the design under test is the target: arbiter initiators, event sources).
+    A port the environment does not drive and the design does not drive either stays at its init.
+    """
+    from amaranth.lib.wiring import In
+    out = Ports()
     seen = set()
     for o in objs:
         for path, member, s in o.signature.flatten(o):
@@ -48,6 +69,8 @@ def flat_ports(*objs):
             if id(s) not in seen:
                 seen.add(id(s))
                 out.append(s)
+                if (member.flow == In) == (env == "in"):
+                    out.env.add(id(s))
     return out
 
 
